@@ -28,6 +28,9 @@ pub struct Transfer {
     /// have one length)
     #[serde(default)]
     pub vary_token_len: bool,
+    /// Uri-Query values carried by every request of the transfer
+    #[serde(default)]
+    pub query: Vec<Vec<u8>>,
 }
 
 #[derive(Clone, Debug, PartialEq, Eq, Hash, Serialize, Deserialize)]
@@ -63,7 +66,7 @@ impl Transfer {
             mid,
             method: self.method,
             path: self.path.clone(),
-            extra: vec![],
+            extra: self.query.iter().map(|q| (15u16, q.clone())).collect(),
             block1,
             block2,
             payload,
@@ -267,6 +270,8 @@ pub fn check_set(_ctx: &Ctx, s: &ScriptSet, acc: &mut Acc) -> Result<(), Fail> {
         "path" => acc.class("sets:differ-in-path"),
         "path-segmentation" => acc.class("sets:differ-in-path-segmentation"),
         "path-prefix" => acc.class("sets:differ-in-path-prefix"),
+        "path-leading-empty-segment" => acc.class("sets:differ-in-leading-empty-segment"),
+        "path-vs-query" => acc.class("sets:differ-in-path-with-query-repeating-the-segment"),
         _ => acc.class("sets:mixed"),
     }
     if s.transfers.iter().any(|t| t.upload) && s.transfers.iter().any(|t| !t.upload) {
@@ -281,6 +286,7 @@ fn transfer(upload: bool) -> BoxedStrategy<Transfer> {
     (0u8..=2, 3u8..=5, any::<u8>(), any::<u8>(), 0u8..=8, any::<bool>(), any::<bool>())
         .prop_map(move |(szx, exchanges, remainder, seed, token_len, early, vary_token_len)| Transfer {
             vary_token_len,
+            query: vec![],
             upload,
             endpoint: 1,
             method: if upload { 3 } else { 1 },
@@ -302,7 +308,19 @@ fn differ(a: &Transfer, b: &mut Transfer, how: u8) -> &'static str {
     // same method family unless the difference is the method
     b.method = a.method;
     b.upload = a.upload;
-    match how % 5 {
+    b.query = a.query.clone();
+    match how % 7 {
+        5 => {
+            // one leading empty segment ("//a/b" vs "/a/b")
+            b.path = vec![b"".to_vec(), b"a".to_vec(), b"b".to_vec()];
+            "path-leading-empty-segment"
+        }
+        6 => {
+            // a shorter path whose query repeats the other's last segment
+            b.path = vec![b"a".to_vec()];
+            b.query = vec![b"b".to_vec()];
+            "path-vs-query"
+        }
         0 => {
             b.endpoint = a.endpoint + 1;
             "endpoint"
@@ -335,8 +353,8 @@ fn script_set(three: bool) -> BoxedStrategy<ScriptSet> {
     (
         proptest::collection::vec((any::<bool>(), any::<u8>()), if three { 3 } else { 2 }),
         any::<bool>(),
-        0u8..5,
-        0u8..5,
+        0u8..7,
+        0u8..7,
         60usize..200,
     )
         .prop_flat_map(move |(kinds, mixed_method, how1, how2, budget)| {
@@ -395,7 +413,7 @@ pub fn run(ctx: &Ctx, rep: &mut Report) {
         ctx,
         rep,
         "two-transfers-all-interleavings",
-        "script sets of 2 transfers of 3..=5 exchanges each (Block1 uploads and Block2 downloads, keys differing in exactly one of endpoint / method / path incl. segmentation [a,b] vs [a/b] and prefix [a] vs [a,b]); ALL interleavings of each set are enumerated on fresh handlers and every exchange is compared with the transfer's solo transcript; each interleaving counts as one evaluation; distinct = distinct script sets",
+        "script sets of 2 transfers of 3..=5 exchanges each (Block1 uploads and Block2 downloads, keys differing in exactly one of endpoint / method / path incl. segmentation [a,b] vs [a/b], prefix [a] vs [a,b], a leading empty segment, and [a,b] vs [a]?b; token length constant or varying from request to request); ALL interleavings of each set are enumerated on fresh handlers and every exchange is compared with the transfer's solo transcript; each interleaving counts as one evaluation; distinct = distinct script sets",
         n,
         || script_set(false),
         check_set,
